@@ -1199,6 +1199,13 @@ def _format_time(a, c):
     if isinstance(t, float):
         # only instants whose fraction is a multiple of 1/8 s (exact in binary and in nanoseconds): nothing to round
         import math
+        if -1e-9 < t < 0:
+            # less than a nanosecond before the epoch: the last representable instant of 1969 (23:59:59.999999999); a 60th
+            # second does not exist in "seconds since epoch"
+            text = format_time(-1, f)
+            if frac_digits is not None:
+                text += "." + "999999999"[:frac_digits]
+            return text
         if t * 8 != math.floor(t * 8):
             raise Unspecified("fractional epoch value that is not a multiple of 1/8 s")
         whole = math.floor(t)
